@@ -127,8 +127,11 @@ class Block:
 
 def _collision_coinbase(nonce):
     # context free: no height inside, so it is valid in any block of any chain
+    # script and value vary with the nonce, so that colliding coinbases differ in what a
+    # careless prefix lookup would return for them
+    key = 'CDAB'[nonce % 4]
     return Tx([(ZERO32, 0xffffffff, b'\x04coll' + struct.pack('<Q', nonce), 0xffffffff)],
-              [(25_0000_0000, SCRIPTS['C'])])
+              [(25_0000_0000 + nonce % 1000, SCRIPTS[key])])
 
 
 def load_collisions():
